@@ -26,16 +26,24 @@ from common import blit, llit, zlit, VERIF
 ID = 'C07'
 TECHNIQUE = ('Coq proof (inductive invariant over all schedules of an unbounded number of processes) + correspondence '
              'check of the executable transition system against the real FileLock/SemLock under a deterministic scheduler')
-LEVEL_TEXT = ('Theorems over the Gallina transition system of LockFile/_lock_file/FileLock.lock/unlock/SemLock._try_lock at '
+LEVEL_TEXT = ('Theorems (P_C07.v) over the Gallina transition system of LockFile/_lock_file/FileLock.lock/unlock/SemLock._try_lock at '
               'file-system-call granularity, for every schedule (list of (process, call)), every number of processes and every '
-              'mix of release styles; mutual exclusion is also REFUTED (3-process schedule) for the same system without the '
-              'identity check of commit 493c25f.  The model is tied to the code by running real lock users on real files '
-              'under a scheduler that serialises their system calls and replaying the observed trace through the model in Coq.')
+              'mix of release styles on one path: mutex_keepfile, mutex_remove_on_unlock, mutex_per_lock_file (inductive invariant '
+              'of 14 clauses: flock owner = holder, a constructed LockFile owns the inode its path names, left-over files have no '
+              'name, ...), semaphore_bounded (<= n inside, pigeonhole over the per-file mutex), failed_attempt_means_held (flock '
+              'refused => another process holds that inode), failed_check_means_held (identity check failed => another process was '
+              'inside on that inode during the attempt and removed the file; history theorem), released_lock_acquirable (alone, <= 6 '
+              'own calls), timeout_partial (LockTimeout only by a clock reading >= stop directly after a failed attempt that tried '
+              'all n files).  Mutual exclusion is REFUTED (3 processes, 11 calls) for the same system without the identity check of '
+              'commit 493c25f.  The model is tied to the code by running real lock users on real files under a scheduler that '
+              'serialises their system calls and replaying the observed trace through Lock.step in Coq.')
 LEVEL_NOTE = ('Trusted: Coq kernel, the hand-written model Lock.v, the scheduler harness.  Modelled, not verified: flock(2) '
               'semantics (exclusive per inode, owned by the open file description, released on close), unlink/open/stat '
               'semantics, no inode reuse while a descriptor is open, CPython reference counting closing a dropped LockFile. '
               'Outside the statement: cleanup_lockdir removing lock files older than lock_timeout+10 s, file_permissions/chmod, '
-              'the Windows branch of lockfile.py, real-time reading of "continuously unavailable" (timeout_partial).')
+              'the Windows branch of lockfile.py, "continuously unavailable between two polls" (not expressible for a polling '
+              'lock: timeout_partial says what is proved instead); released_lock_acquirable is for a process running alone '
+              '(no fairness/liveness claim under contention).')
 DESIGN_REF = 'DESIGN.md section 5, C07'
 RULE = ('case = one schedule (lock kind, per-contender timeouts and lock/unlock/drop programs, sequence of contender ids and clock '
         'increments) run to completion; non-trivial = at least two contenders took steps and at least one attempt failed '
@@ -148,6 +156,7 @@ class Sched(object):
         self.lock_call = [None] * self.m  # per contender: {'t0':, 'last_t':}
         self.open_files = [set() for _ in range(self.m)]
         self.max_inside = 0
+        self.sem_slots = [None] * self.m  # per contender: lock files opened since the last random.randint
 
     # ------------------------------------------------------------------ contender side
     def tid(self):
@@ -196,6 +205,8 @@ class Sched(object):
         iid = self.ino_ids.get(ino, 777)
         k = self.slot_of(path)
         entry['res'] = ('open', k, iid, not existed)
+        if self.sem_slots[tid] is not None:
+            self.sem_slots[tid].add(k)
         if mode != 'w+':
             self.weird.append('open mode %r' % (mode,))
         f = GatedFile(self, real, iid)
@@ -310,6 +321,13 @@ class Sched(object):
             self.lock_call[tid] = {'t0': self.clock, 'last': self.clock}
         else:
             lc['last'] = self.clock
+            # this reading follows a LockError: a semaphore may give up only after trying each of its n files
+            if self.conf['kind'] == 'sem' and self.sem_slots[tid] is not None:
+                n = self.conf['contenders'][tid]['n']
+                if self.sem_slots[tid] != set(range(n)):
+                    self.oracle_fail.append(('semaphore-gave-up-without-trying-every-slot',
+                                             'SemLock(n=%d) of contender %d raised LockError after trying only the files %s' % (
+                                                 n, tid, sorted(self.sem_slots[tid]))))
         return float(self.clock)
 
     def w_sleep(self, secs):
@@ -325,6 +343,7 @@ class Sched(object):
             return random.randint(a, b)
         r = a + (self.choice % (b - a + 1)) if b >= a else a
         entry['res'] = ('rand', r)
+        self.sem_slots[entry['pid']] = set()
         return r
 
     # ------------------------------------------------------------------ contender programs
